@@ -310,12 +310,16 @@ theorem scan_plain : ∀ (fs : List Field) (rest : List Bytes) (hs : HdrScan), (
 /-- what the header scan must compute for a body -/
 def scanOf : Body → HdrScan
   | .sized _ b => { contentLength := b.length, haveCL := true, isChunked := false }
-  | .chunked _ _ _ => { contentLength := 0, haveCL := false, isChunked := true }
+  | .chunked _ _ _ => { contentLength := 0, haveCL := false, isChunked := true, haveTE := true }
   | _ => {}
 
 structure ReqWF (line : Bytes) (before after : List Field) (body : Body) : Prop where
   line_ne : line ≠ []
-  line_ok : ∀ c ∈ line, c ≠ 13 ∧ c ≠ 10 ∧ c ≠ 58
+  line_ok : ∀ c ∈ line, c ≠ 13 ∧ c ≠ 10
+  /-- the request line may contain `:` (absolute-form / authority-form targets); what precedes its first `:` is not read
+  as a framing field name by the header scan -/
+  line_key : ∀ colon, indexOf? (· == 58) line = some colon →
+    lower (trim (line.take colon)) ≠ ascii "content-length" ∧ lower (trim (line.take colon)) ≠ ascii "transfer-encoding"
   before_ok : ∀ f ∈ before, PlainField f
   after_ok : ∀ f ∈ after, PlainField f
   body_ok :
@@ -323,7 +327,7 @@ structure ReqWF (line : Bytes) (before after : List Field) (body : Body) : Prop 
     | .empty => True
     | .sized tok b => tokValue 10 tok = some b.length ∧ b.length ≤ Gen.Http.serverMaxBodySize
     | .chunked te cs l =>
-      contains (lower te) (ascii "chunked") = true ∧ NoCRLF te ∧ Trimmed te ∧
+      lastToken (splitOn 44 (lower te)) [] = ascii "chunked" ∧ NoCRLF te ∧ Trimmed te ∧
         (∀ c ∈ cs, c.WF Gen.Http.serverMaxBodySize) ∧ l.WF
     | .untilClose _ => False
 
@@ -332,10 +336,16 @@ def reqFields (before after : List Field) (body : Body) : List Field :=
 
 theorem scan_request (line : Bytes) (before after : List Field) (body : Body) (h : ReqWF line before after body) :
     scanHeaderLines (line :: (reqFields before after body).map Field.line) {} = some (scanOf body) := by
-  have hline : indexOf? (· == 58) line = none :=
-    indexOf_none _ line (by intro c hc; simpa using (h.line_ok c hc).2.2)
+  have hskip : ∀ (rest : List Bytes) (hs : HdrScan), scanHeaderLines (line :: rest) hs = scanHeaderLines rest hs := by
+    intro rest hs
+    cases hc : indexOf? (· == 58) line with
+    | none => simp only [scanHeaderLines, hc]
+    | some colon =>
+      obtain ⟨k1, k2⟩ := h.line_key colon hc
+      simp only [scanHeaderLines, hc, k1, k2, ↓reduceIte]
   have hbody := h.body_ok
-  simp only [scanHeaderLines, hline, reqFields, List.map_append]
+  rw [hskip]
+  simp only [reqFields, List.map_append]
   rw [List.append_assoc, scan_plain before _ _ h.before_ok]
   cases hbd : body with
   | empty =>
@@ -365,8 +375,8 @@ theorem scan_request (line : Bytes) (before after : List Field) (body : Body) (h
     obtain ⟨_, _, hidx, hname, hval⟩ := fieldLine_parse _ hfw
     simp only at hidx hname hval
     simp only [Body.field, List.map_cons, List.map_nil, List.cons_append, List.nil_append, scanHeaderLines, hidx,
-      hname, hval, lower_teName, ↓reduceIte, cl_ne_te.symm, hbody.1]
-    have := scan_plain after [] { contentLength := 0, haveCL := false, isChunked := true } h.after_ok
+      hname, hval, lower_teName, ↓reduceIte, cl_ne_te.symm, hbody.1, beq_self_eq_true]
+    have := scan_plain after [] { contentLength := 0, haveCL := false, isChunked := true, haveTE := true } h.after_ok
     simp only [List.append_nil] at this
     rw [this]; rfl
 
@@ -424,7 +434,7 @@ theorem extract_exact (line : Bytes) (before after : List Field) (body : Body) (
   have hlines2 : ∀ l ∈ line :: (reqFields before after body).map Field.line, PlainLine l := by
     intro l hl
     rcases List.mem_cons.mp hl with rfl | hl
-    · exact fun c hc => ⟨(h.line_ok c hc).1, (h.line_ok c hc).2.1⟩
+    · exact fun c hc => ⟨(h.line_ok c hc).1, (h.line_ok c hc).2⟩
     · obtain ⟨f, hf, rfl⟩ := List.mem_map.mp hl
       exact fieldLine_plain f (hwf f hf)
   have hbuf : reqRender line before after body ++ rest =
@@ -475,7 +485,7 @@ theorem extract_exact (line : Bytes) (before after : List Field) (body : Body) (
     omega
   | chunked te cs l =>
     rw [hbd] at hbody; simp only at hbody
-    simp only [scanOf, Bool.false_eq_true, and_false, ↓reduceIte, Body.wire]
+    simp only [scanOf, Bool.false_eq_true, and_false, not_true_eq_false, and_self, ↓reduceIte, Body.wire]
     have e : reqHead line before after (Body.chunked te cs l) ++ crlf2 ++ (renderChunks cs ++ l.render ++ rest) =
         (reqHead line before after (Body.chunked te cs l) ++ crlf2) ++ (renderChunks cs ++ l.render ++ rest) := rfl
     have l4 : (reqHead line before after (Body.chunked te cs l)).length + 4 =
@@ -704,7 +714,7 @@ theorem fromWireFormat_exact (r : FullReq) (hrl : r.rl.WF) (hok : r.spec.OK)
   have hlines2 : ∀ l ∈ r.rl.render :: (reqFields r.before r.after r.body).map Field.line, PlainLine l := by
     intro l hl
     rcases List.mem_cons.mp hl with rfl | hl
-    · exact fun c hc => ⟨(h.line_ok c hc).1, (h.line_ok c hc).2.1⟩
+    · exact fun c hc => ⟨(h.line_ok c hc).1, (h.line_ok c hc).2⟩
     · obtain ⟨f, hf, rfl⟩ := List.mem_map.mp hl
       exact fieldLine_plain f (hwf f hf)
   have hraw : r.spec.raw = reqHead r.rl.render r.before r.after r.body ++ crlf2 ++ r.body.content := rfl
@@ -728,5 +738,157 @@ theorem fromWireFormat_exact (r : FullReq) (hrl : r.rl.WF) (hok : r.spec.OK)
   have hh : hostCount (reqFields r.before r.after r.body) = 1 := hhost
   have hv : hdrFind (reqHeaders (reqFields r.before r.after r.body) []) (ascii "Host") ≠ some [] := hhv
   simp [hh, hv, FullReq.fields]
+
+/-! ### the request line never looks like a framing field to the header scan (absolute-form and authority-form targets included) -/
+
+theorem exists_first (p : UInt8 → Bool) : ∀ (l : Bytes), (∃ x ∈ l, p x = true) →
+    ∃ l1 l2 y, l = l1 ++ y :: l2 ∧ p y = true ∧ ∀ x ∈ l1, p x = false := by
+  intro l
+  induction l with
+  | nil => intro ⟨x, hx, _⟩; cases hx
+  | cons a as ih =>
+    intro ⟨x, hx, hpx⟩
+    by_cases ha : p a = true
+    · exact ⟨[], as, a, rfl, ha, by intro x hx; cases hx⟩
+    · rcases List.mem_cons.mp hx with rfl | hx
+      · exact absurd hpx ha
+      · obtain ⟨l1, l2, y, he, hy, hall⟩ := ih ⟨x, hx, hpx⟩
+        refine ⟨a :: l1, l2, y, by rw [he]; rfl, hy, ?_⟩
+        intro z hz
+        rcases List.mem_cons.mp hz with rfl | hz
+        · simpa using ha
+        · exact hall z hz
+
+theorem method_table1 : ∀ i, i < 9 →
+    (∀ c ∈ methodName i, (c == 58) = false ∧ isOWS c = false) ∧
+    lower (methodName i) ≠ ascii "content-length" ∧ lower (methodName i) ≠ ascii "transfer-encoding" := by
+  decide
+
+theorem names_no_space : (32 : UInt8) ∉ ascii "content-length" ∧ (32 : UInt8) ∉ ascii "transfer-encoding" := by decide
+
+theorem version_no_colon (minor : Nat) (h : minor ≤ 9) : ∀ c ∈ versionBytes minor, (c == 58) = false ∧ c ≠ 13 ∧ c ≠ 10 := by
+  intro c hc
+  have ht : (b8 (48 + minor)).toNat = 48 + minor := by simp [b8_toNat]; omega
+  simp only [versionBytes, List.mem_cons, List.not_mem_nil, or_false] at hc
+  rcases hc with rfl | rfl | rfl | rfl | rfl | rfl | rfl | rfl
+  any_goals decide
+  refine ⟨?_, ?_, ?_⟩
+  · simp only [beq_eq_false_iff_ne, ne_eq]; intro h'; have := congrArg UInt8.toNat h'; rw [ht] at this; simp at this; omega
+  · intro h'; have := congrArg UInt8.toNat h'; rw [ht] at this; simp at this; omega
+  · intro h'; have := congrArg UInt8.toNat h'; rw [ht] at this; simp at this; omega
+
+theorem target_char (c : UInt8) (h : 0x21 ≤ c.toNat ∧ c.toNat ≠ 0x7F) : c ≠ 13 ∧ c ≠ 10 ∧ isOWS c = false ∧ (c == 32) = false := by
+  refine ⟨?_, ?_, ?_, ?_⟩
+  · intro hc; subst hc; simp at h
+  · intro hc; subst hc; simp at h
+  · unfold isOWS
+    have h1 : c ≠ 32 := by intro hc; subst hc; simp at h
+    have h2 : c ≠ 9 := by intro hc; subst hc; simp at h
+    simp [h1, h2]
+  · simp only [beq_eq_false_iff_ne, ne_eq]; intro hc; subst hc; simp at h
+
+/-- for EVERY well-formed request line - whatever colons its target contains - the header scan of `handleIncomingData`
+does not take it for a `Content-Length` / `Transfer-Encoding` line -/
+theorem reqLine_facts (l : ReqLine) (h : l.WF) :
+    l.render ≠ [] ∧ (∀ c ∈ l.render, c ≠ 13 ∧ c ≠ 10) ∧
+    ∀ colon, indexOf? (· == 58) l.render = some colon →
+      lower (trim (l.render.take colon)) ≠ ascii "content-length" ∧
+      lower (trim (l.render.take colon)) ≠ ascii "transfer-encoding" := by
+  obtain ⟨hmne, hmch, _⟩ := method_table l.method h.method_ok
+  obtain ⟨hm1, hm2, hm3⟩ := method_table1 l.method h.method_ok
+  have hv := version_no_colon l.minor h.minor_ok
+  refine ⟨by simp [ReqLine.render], ?_, ?_⟩
+  · intro c hc
+    simp only [ReqLine.render, List.mem_append, List.mem_cons] at hc
+    rcases hc with hc | rfl | hc | rfl | hc
+    · have := (hmch c hc).2
+      constructor <;> (intro hcc; subst hcc; simp at this)
+    · decide
+    · exact ⟨(target_char c (h.target_ok c hc)).1, (target_char c (h.target_ok c hc)).2.1⟩
+    · decide
+    · exact (hv c hc).2
+  · intro colon hc
+    by_cases hT : ∃ x ∈ l.target, (x == 58) = true
+    · obtain ⟨t1, t2, y, he, hy, ht1⟩ := exists_first (· == 58) l.target hT
+      have hy58 : y = 58 := by simpa using hy
+      subst hy58
+      have hline : l.render = (methodName l.method ++ 32 :: t1) ++ 58 :: (t2 ++ 32 :: versionBytes l.minor) := by
+        simp [ReqLine.render, he]
+      have hK : ∀ c ∈ methodName l.method ++ 32 :: t1, (c == 58) = false := by
+        intro c hcm
+        rcases List.mem_append.mp hcm with hcm | hcm
+        · exact (hm1 c hcm).1
+        · rcases List.mem_cons.mp hcm with rfl | hcm
+          · decide
+          · exact ht1 c hcm
+      have hidx := indexOf_skip (· == 58) (methodName l.method ++ 32 :: t1) 58 (t2 ++ 32 :: versionBytes l.minor) hK (by decide)
+      rw [hline] at hc
+      rw [hidx] at hc
+      cases hc
+      rw [hline, List.take_left' rfl]
+      cases ht : t1 with
+      | nil =>
+        have : trim (methodName l.method ++ [32]) = methodName l.method := by
+          have := trim_padded [] (methodName l.method) [32] (by intro c hc; cases hc) sp_ows
+            (trimmed_of_noOWS _ (fun c hc => (hm1 c hc).2))
+          simpa using this
+        rw [this]
+        exact ⟨hm2, hm3⟩
+      | cons a as =>
+        have ht1T : ∀ c ∈ a :: as, c ∈ l.target := by
+          intro c hc; rw [he, ht]; exact List.mem_append_left _ hc
+        have htrim : Trimmed (methodName l.method ++ 32 :: a :: as) := by
+          constructor
+          · intro c hcc
+            cases hmn : methodName l.method with
+            | nil => exact absurd hmn hmne
+            | cons m0 ms =>
+              rw [hmn] at hcc; simp at hcc; rw [← hcc]
+              exact (hm1 m0 (by rw [hmn]; simp)).2
+          · intro c hcc
+            have hlast : c ∈ a :: as := by
+              have : (methodName l.method ++ 32 :: a :: as).getLast? = (a :: as).getLast? := by
+                rw [show methodName l.method ++ 32 :: a :: as = (methodName l.method ++ [32]) ++ (a :: as) by simp]
+                rw [List.getLast?_append]
+                cases hg : (a :: as).getLast? with
+                | none => simp at hg
+                | some z => rfl
+              rw [this] at hcc
+              exact List.mem_of_getLast? hcc
+            exact (target_char c (h.target_ok c (ht1T c hlast))).2.2.1
+        rw [trim_self _ htrim]
+        have h32 : (32 : UInt8) ∈ lower (methodName l.method ++ 32 :: a :: as) := by
+          unfold lower
+          exact List.mem_map.mpr ⟨32, by simp, by decide⟩
+        constructor
+        · intro heq; rw [heq] at h32; exact names_no_space.1 h32
+        · intro heq; rw [heq] at h32; exact names_no_space.2 h32
+    · have hnone : indexOf? (· == 58) l.render = none := by
+        apply indexOf_none
+        intro c hcm
+        simp only [ReqLine.render, List.mem_append, List.mem_cons] at hcm
+        rcases hcm with hcm | rfl | hcm | rfl | hcm
+        · exact (hm1 c hcm).1
+        · decide
+        · cases hb : (c == 58) with
+          | false => rfl
+          | true => exact absurd ⟨c, hcm, hb⟩ hT
+        · decide
+        · exact (hv c hcm).1
+      rw [hnone] at hc; cases hc
+
+/-- a complete request: everything `ReqWF` asks of the request line follows from `ReqLine.WF` -/
+theorem reqWF_of_line (l : ReqLine) (h : l.WF) (before after : List Field) (body : Body)
+    (hb : ∀ f ∈ before, PlainField f) (ha : ∀ f ∈ after, PlainField f)
+    (hbody : match body with
+      | .empty => True
+      | .sized tok b => tokValue 10 tok = some b.length ∧ b.length ≤ Gen.Http.serverMaxBodySize
+      | .chunked te cs l =>
+        lastToken (splitOn 44 (lower te)) [] = ascii "chunked" ∧ NoCRLF te ∧ Trimmed te ∧
+          (∀ c ∈ cs, c.WF Gen.Http.serverMaxBodySize) ∧ l.WF
+      | .untilClose _ => False) :
+    ReqWF l.render before after body :=
+  { line_ne := (reqLine_facts l h).1, line_ok := (reqLine_facts l h).2.1, line_key := (reqLine_facts l h).2.2,
+    before_ok := hb, after_ok := ha, body_ok := hbody }
 
 end Iora.Http.Srv
